@@ -329,7 +329,7 @@ def RunRefsKnown (v : Ver) : St → List Op → Prop
   | _, [] => True
   | s, op :: ops => StepRefsKnown v s op ∧ RunRefsKnown v (stepOp s op).1 ops
 
-theorem sameObs_recv {v w : Ver} (s1 s2 : St) (env : Env) (line : Str) (faults : List Bool)
+theorem sameObs_recv {v w : Ver} (s1 s2 : St) (env : Env) (line : Str) (faults : List Fault)
     (h : (recv env line { st := s1, faults := faults }).1 = (recv env line { st := s2, faults := faults }).1 ∧
       Sim v w (recv env line { st := s1, faults := faults }).2 (recv env line { st := s2, faults := faults }).2) :
     SameObs (stepOp s1 (.recv env line faults)).2 (stepOp s2 (.recv env line faults)).2 ∧
@@ -339,7 +339,7 @@ theorem sameObs_recv {v w : Ver} (s1 s2 : St) (env : Env) (line : Str) (faults :
   · rw [stepOp_recv_writes, stepOp_recv_writes]; exact h.2.writes
   · rw [stepOp_recv_st, stepOp_recv_st]; exact h.2.st
 
-theorem sameObs_send {v w : Ver} (s1 s2 : St) (obj : Option Msg) (b : Bool) (faults : List Bool)
+theorem sameObs_send {v w : Ver} (s1 s2 : St) (obj : Option Msg) (b : Bool) (faults : List Fault)
     (h : (apiSend obj b { st := s1, faults := faults }).1 = (apiSend obj b { st := s2, faults := faults }).1 ∧
       Sim v w (apiSend obj b { st := s1, faults := faults }).2 (apiSend obj b { st := s2, faults := faults }).2) :
     SameObs (stepOp s1 (.send obj b faults)).2 (stepOp s2 (.send obj b faults)).2 ∧
@@ -542,7 +542,7 @@ example : CrossSt .v15 .v21 { pv := some "1.5".toList, proto := .v15 } { pv := s
   fresh_similar_across _ _ _ _
 example : NoMissingOutcome ⟨.error (.lib .transportFailed), []⟩ := fun _ => ⟨by simp, by simp⟩
 /-- A log message references nothing: the hypothesis of the handler-level theorem holds for it in every state. -/
-example (env : Env) (s : St) (faults : List Bool) :
+example (env : Env) (s : St) (faults : List Fault) :
     ¬ RaisesMissing env .v14 ⟨1, 255, 3, 0, 9, []⟩ { st := s, faults := faults } := by
   intro h
   apply h
